@@ -287,3 +287,132 @@ def option_pair(rx, a, b):
     for base, k, name in reversed(rx.reads):
         text = f"(match {base}[{k}]? with | some {name} => {text} | none => none)"
     return text
+
+
+# ----------------------------------------------------------------------------- matrices as lists of rows (cqpt_to_cqmpt)
+class RowMat:
+    """numpy statements on 2-D arrays → Lean code on lists of rows with the helpers of QModel/C08.lean
+    (`colsTo / colsFrom / negMat / zerosMat / hstack2 / hstackRep / blockDiagRep / colAt? / matWidth`).
+    `kinds`: name → 'mat' | 'vec'; `reps`: name → (X, count) for lists `[X] * count`; `tuples`: name → tuple node."""
+
+    def __init__(self, where, nat_names):
+        self.where, self.nat_names = where, nat_names
+        self.kinds, self.reps, self.tuples = {}, {}, {}
+
+    def nat(self, e):
+        if isinstance(e, ast.Constant) and isinstance(e.value, int) and e.value >= 0:
+            return str(e.value)
+        if isinstance(e, ast.Name) and e.id in self.nat_names:
+            return self.nat_names[e.id]
+        if isinstance(e, ast.Subscript) and isinstance(e.value, ast.Attribute) and e.value.attr == "shape" \
+                and isinstance(e.value.value, ast.Name) and self.kinds.get(e.value.value.id) == "mat":
+            k = subscript_index(e, self.where)
+            if k == 0:
+                return f"{e.value.value.id}.length"
+            if k == 1:
+                return f"(QM.C08.matWidth {e.value.value.id})"
+        if isinstance(e, ast.BinOp) and isinstance(e.op, (ast.Add, ast.Sub, ast.Mult)):
+            op = {ast.Add: "+", ast.Sub: "-", ast.Mult: "*"}[type(e.op)]
+            return f"({self.nat(e.left)} {op} {self.nat(e.right)})"
+        if isinstance(e, ast.BinOp) and isinstance(e.op, ast.Pow) and isinstance(e.right, ast.Constant):
+            return f"({self.nat(e.left)} ^ {e.right.value})"
+        fail(self.where, e, "unsupported size expression")
+
+    def rep(self, e):
+        """`[X] * count` → (X name, count text)"""
+        if isinstance(e, ast.BinOp) and isinstance(e.op, ast.Mult) and isinstance(e.left, ast.List) and len(e.left.elts) == 1 \
+                and isinstance(e.left.elts[0], ast.Name):
+            return e.left.elts[0].id, self.nat(e.right)
+        fail(self.where, e, "expected `[X] * count`")
+
+    def expr(self, e):
+        """(lean, kind) with kind 'mat' | 'vec' | 'optvec'"""
+        if isinstance(e, ast.Name):
+            if e.id not in self.kinds:
+                fail(self.where, e, "unbound array name")
+            return e.id, self.kinds[e.id]
+        if isinstance(e, ast.UnaryOp) and isinstance(e.op, ast.USub):
+            x, k = self.expr(e.operand)
+            if k != "mat":
+                fail(self.where, e, "negation of a non-matrix")
+            return f"(QM.C08.negMat {x})", "mat"
+        if isinstance(e, ast.Subscript) and isinstance(e.slice, ast.Tuple) and len(e.slice.elts) == 2:
+            x, k = self.expr(e.value)
+            r, c = e.slice.elts
+            if k != "mat" or not (isinstance(r, ast.Slice) and r.lower is None and r.upper is None) or not isinstance(c, ast.Slice) \
+                    or c.step is not None:
+                fail(self.where, e, "only `X[:, :k]` / `X[:, k:]` are supported")
+            if c.lower is None and c.upper is not None:
+                return f"(QM.C08.colsTo {self.nat(c.upper)} {x})", "mat"
+            if c.upper is None and c.lower is not None:
+                return f"(QM.C08.colsFrom {self.nat(c.lower)} {x})", "mat"
+            fail(self.where, e, "unsupported column slice")
+        if isinstance(e, ast.Subscript) and isinstance(e.value, ast.Attribute) and e.value.attr == "T":
+            x, k = self.expr(e.value.value)
+            if k != "mat":
+                fail(self.where, e, ".T of a non-matrix")
+            return f"(QM.C08.colAt? {subscript_index(e, self.where)} {x})", "optvec"
+        if isinstance(e, ast.Call):
+            f = ast.unparse(e.func)
+            if f == "block_diag" and len(e.args) == 1 and isinstance(e.args[0], ast.Starred) \
+                    and isinstance(e.args[0].value, ast.Name) and e.args[0].value.id in self.reps:
+                x, cnt = self.reps[e.args[0].value.id]
+                return f"(QM.C08.blockDiagRep {cnt} {x})", "mat"
+            if f == "np.zeros" and len(e.args) == 1:
+                a = e.args[0]
+                if isinstance(a, ast.Name) and a.id in self.tuples:
+                    a = self.tuples[a.id]
+                if isinstance(a, ast.Tuple) and len(a.elts) == 2:
+                    return f"(QM.C08.zerosMat {self.nat(a.elts[0])} {self.nat(a.elts[1])})", "mat"
+                return f"(QM.C08.zeros {self.nat(a)})", "vec"
+            if f == "np.vstack" and len(e.args) == 1 and isinstance(e.args[0], ast.List) and len(e.args[0].elts) == 2:
+                (x, kx), (y, ky) = self.expr(e.args[0].elts[0]), self.expr(e.args[0].elts[1])
+                if (kx, ky) != ("mat", "mat"):
+                    fail(self.where, e, "vstack of non-matrices")
+                return f"({x} ++ {y})", "mat"
+            if f == "np.hstack" and len(e.args) == 1:
+                a = e.args[0]
+                if isinstance(a, ast.List) and len(a.elts) == 2:
+                    (x, kx), (y, ky) = self.expr(a.elts[0]), self.expr(a.elts[1])
+                    if (kx, ky) == ("mat", "mat"):
+                        return f"(QM.C08.hstack2 {x} {y})", "mat"
+                    if (kx, ky) == ("vec", "vec"):
+                        return f"({x} ++ {y})", "vec"
+                    fail(self.where, e, "hstack of mixed kinds")
+                if isinstance(a, ast.BinOp) and isinstance(a.op, ast.Add) and isinstance(a.right, ast.List) \
+                        and len(a.right.elts) == 1:
+                    d, cnt = self.rep(a.left)
+                    y, ky = self.expr(a.right.elts[0])
+                    if self.kinds.get(d) != "mat" or ky != "mat":
+                        fail(self.where, e, "hstack([D] * k + [E]) of non-matrices")
+                    return f"(QM.C08.hstackRep {cnt} {d} {y})", "mat"
+        fail(self.where, e, "unsupported array expression")
+
+    def block(self, stmts, result, offset, indent="    "):
+        """let-chain for a statement list; returns Lean text ending in `some (<result>, <offset>)`"""
+        lines, close = [], 0
+        for st in stmts:
+            if isinstance(st, ast.If) and ast.unparse(st.test) == "len(c_qpt.shape) < 2":
+                continue          # promotion of a 1-D row to a 1-row matrix: the model always passes a list of rows
+            if not (isinstance(st, ast.Assign) and len(st.targets) == 1 and isinstance(st.targets[0], ast.Name)):
+                fail(self.where, st, "unsupported statement")
+            name, v = st.targets[0].id, st.value
+            if isinstance(v, ast.BinOp) and isinstance(v.left, ast.List):
+                self.reps[name] = self.rep(v)
+                continue
+            if isinstance(v, ast.Tuple):
+                self.tuples[name] = v
+                continue
+            t, k = self.expr(v)
+            if k == "optvec":
+                lines.append(f"{indent}match {t} with")
+                lines.append(f"{indent}| none => none")
+                lines.append(f"{indent}| some {name} =>")
+                indent += "  "
+                self.kinds[name] = "vec"
+            else:
+                ty = "List (List K)" if k == "mat" else "List K"
+                lines.append(f"{indent}let {name} : {ty} := {t}")
+                self.kinds[name] = k
+        lines.append(f"{indent}some ({result}, {offset})")
+        return "\n".join(lines)
